@@ -11,7 +11,8 @@ Local Open Scope Z_scope.
 (* main theorem: for every well-formed schema and every conforming value, parsing the serialisation
    gives the value back.  `conformsb` = typing + the value-level side conditions (integers in range,
    custom-field keys distinct from schema keys, an untagged alternative's JSON not claimed by an earlier
-   alternative, a skipped field comes back from its missing-value, try_from validators hold). *)
+   alternative, a skipped field comes back from its missing-value (true of every field of the table:
+   c20_skips_ok), try_from validators hold (true of everything the builders build: c20_reference_time_builder)). *)
 Theorem c20_roundtrip : forall s v, wf s = true -> conformsb s v = true -> de s (ser s v) = Some v.
 Proof. exact p_c20_roundtrip. Qed.
 
@@ -24,10 +25,18 @@ Theorem c20_roundtrip_table : forall n s v, In (n, s) qevent_types -> conformsb 
   de s (ser s v) = Some v.
 Proof. exact p_c20_roundtrip_table. Qed.
 
-(* the static defects of the schemas (skipped field without default: kind 1 = F50; statically shadowed
-   untagged alternative: kind 7 = F51) are exactly the listed ones *)
+(* the static defects of the schemas are exactly the listed ones: one statically shadowed untagged
+   alternative (kind 7 = F51).  No skipped field without missing-value (kind 1 = F50) is left ... *)
 Theorem c20_schema_defects : defects_of qevent_types = known_defects.
 Proof. exact p_c20_schema_defects. Qed.
+
+(* ... indeed, at every depth of every type every skipped field comes back from its missing-value, so the
+   clause of `conformsb` about skipped fields holds for every value: empty vectors / maps / None included *)
+Theorem c20_skips_ok : forall n s, In (n, s) qevent_types -> skips_ok s = true.
+Proof. exact p_c20_skips_ok_in. Qed.
+
+Theorem c20_skip_clause : forall sk d s v, skip_ok sk d s = true -> (skip_ok sk d s || negb (skipped sk v)) = true.
+Proof. exact p_c20_skip_clause. Qed.
 
 (* every serialised Event carries the mandatory qlog fields, in both formats; group_id whenever set *)
 Theorem c20_mandatory : forall v, conformsb event_schema v = true ->
@@ -44,13 +53,48 @@ Theorem c20_group_id : forall t p tf pt g si fl ex,
   conformsb event_schema v = true -> g <> VNone -> has_key (k "group_id") (ser event_schema v).
 Proof. exact p_c20_group_id. Qed.
 
-(* the full-strength statement (all values the builders can produce) is false: four witnesses, each
-   outside `conformsb`, each replayed on the real crate (corpus/C20/qevent/f5*.case) *)
+(* F50 (repaired): the former witnesses (packets_acked without numbers, an ordinary packet_sent) conform
+   and round-trip ... *)
+Theorem c20_f50_repaired :
+  (conformsb T_quic_transport_PacketsAcked w_f50 = true
+   /\ de T_quic_transport_PacketsAcked (ser T_quic_transport_PacketsAcked w_f50) = Some w_f50)
+  /\ (conformsb T_quic_transport_PacketSent w_f50_sent = true
+      /\ de T_quic_transport_PacketSent (ser T_quic_transport_PacketSent w_f50_sent) = Some w_f50_sent).
+Proof. exact p_c20_f50_repaired. Qed.
+
+(* ... and on the shapes as they were (the same schemas without the missing-value of the field) they are
+   refused: what a regression of the repair looks like *)
+Theorem c20_f50_was_refuted :
+  (wf PacketsAcked_was = true /\ skips_ok PacketsAcked_was = false /\ conformsb PacketsAcked_was w_f50 = false
+   /\ de PacketsAcked_was (ser PacketsAcked_was w_f50) = None)
+  /\ (wf PacketSent_was = true /\ skips_ok PacketSent_was = false /\ conformsb PacketSent_was w_f50_sent = false
+      /\ de PacketSent_was (ser PacketSent_was w_f50_sent) = None).
+Proof. exact p_c20_f50_was_refuted. Qed.
+
+(* F52 (repaired): whatever well-typed field values the ReferenceTime builder is given (any clock type, any
+   epoch, set or defaulted), the value it builds satisfies the type's validator and parses back *)
+Theorem c20_reference_time_builder : forall v, conformsb ReferenceTime_fields v = true ->
+  conformsb T_ReferenceTime (build T_ReferenceTime v) = true
+  /\ de T_ReferenceTime (ser T_ReferenceTime (build T_ReferenceTime v)) = Some (build T_ReferenceTime v).
+Proof. exact p_c20_reference_time_builder. Qed.
+
+Theorem c20_f52_repaired :
+  conformsb ReferenceTime_fields w_f52 = true /\ build T_ReferenceTime w_f52 = w_f52_built
+  /\ de T_ReferenceTime (ser T_ReferenceTime (build T_ReferenceTime w_f52)) = Some w_f52_built.
+Proof. exact p_c20_f52_repaired. Qed.
+
+(* with the builder as it was (stores the epoch it is given / its default) the built value is refused *)
+Theorem c20_f52_was_refuted :
+  wf ReferenceTime_was = true /\ build ReferenceTime_was w_f52 = w_f52
+  /\ conformsb ReferenceTime_was (build ReferenceTime_was w_f52) = false
+  /\ de ReferenceTime_was (ser ReferenceTime_was (build ReferenceTime_was w_f52)) = None.
+Proof. exact p_c20_f52_was_refuted. Qed.
+
+(* the full-strength statement (all values the builders can produce) is still false: two witnesses (F51, F53),
+   each outside `conformsb`, each replayed on the real crate (corpus/C20/qevent/f51*.case, f53*.case) *)
 Theorem c20_roundtrip_refuted :
-  (conformsb T_quic_transport_PacketsAcked w_f50 = false /\ de T_quic_transport_PacketsAcked (ser T_quic_transport_PacketsAcked w_f50) = None)
-  /\ (conformsb T_quic_connectivity_ConnectionState w_f51 = false
+  (conformsb T_quic_connectivity_ConnectionState w_f51 = false
       /\ de T_quic_connectivity_ConnectionState (ser T_quic_connectivity_ConnectionState w_f51) = Some (VEnum 0 (VEnum 3 VUnit)))
-  /\ (conformsb T_ReferenceTime w_f52 = false /\ de T_ReferenceTime (ser T_ReferenceTime w_f52) = None)
   /\ (conformsb event_schema w_f53 = false /\ rt_fails event_schema w_f53 = true
       /\ de event_schema (canon (ser event_schema w_f53)) = None).
 Proof. exact p_c20_refuted. Qed.
@@ -68,6 +112,13 @@ Print Assumptions c20_roundtrip.
 Print Assumptions c20_schema_wf.
 Print Assumptions c20_roundtrip_table.
 Print Assumptions c20_schema_defects.
+Print Assumptions c20_skips_ok.
+Print Assumptions c20_skip_clause.
+Print Assumptions c20_f50_repaired.
+Print Assumptions c20_f50_was_refuted.
+Print Assumptions c20_reference_time_builder.
+Print Assumptions c20_f52_repaired.
+Print Assumptions c20_f52_was_refuted.
 Print Assumptions c20_mandatory.
 Print Assumptions c20_mandatory_legacy.
 Print Assumptions c20_group_id.
